@@ -28,10 +28,12 @@ func (t Translator) FromArrai(v rel.Value) (interface{}, error) {
 			return t.objFromArraiTuple(v)
 		}
 		if array, ok := v.Get("a"); ok && v.Count() == 1 {
-			if s, is := array.(rel.Set); is {
-				return t.arrFromArrai(s)
+			switch s := array.(type) {
+			case rel.Array, rel.EmptySet:
+				return t.arrFromArrai(s.(rel.Set))
 			}
-			return nil, errors.Errorf("FromArrai: value in (a: <value>) must be a set")
+			return nil, errors.Errorf("FromArrai: value in (a: <value>) must be an array, not %s",
+				rel.ValueTypeAsString(array))
 		}
 		if str, ok := v.Get("s"); ok && v.Count() == 1 {
 			switch str := str.(type) {
@@ -47,9 +49,9 @@ func (t Translator) FromArrai(v rel.Value) (interface{}, error) {
 				return false, nil
 			case rel.TrueSet:
 				return true, nil
-			default:
-				return b.(rel.GenericSet).IsTrue(), nil
 			}
+			return nil, errors.Errorf("FromArrai: value in (b: <value>) must be true or false, not %s",
+				rel.ValueTypeAsString(b))
 		}
 		return nil, fmt.Errorf("cannot convert tuple %s to an object", v)
 	case rel.Array:
@@ -90,7 +92,11 @@ func (t Translator) objFromArraiDict(v rel.Dict) (map[string]interface{}, error)
 		if err != nil {
 			return nil, err
 		}
-		maps[keydata.(string)] = valuedata
+		keystr, is := keydata.(string)
+		if !is {
+			return nil, fmt.Errorf("object keys must be strings, not %s", rel.ValueTypeAsString(key))
+		}
+		maps[keystr] = valuedata
 	}
 	return maps, nil
 }
